@@ -130,6 +130,25 @@ func bechBody(hrp string, data []byte, residue int) string {
 	return string(sb)
 }
 
+// strings built with the implementation's own encoders (what the implementation itself calls valid);
+// the reference is the fallback when the encoder panics or refuses
+func implCash(prefix string, payload []byte) string {
+	var body string
+	if p, _ := vh.Catch(func() { body = bchutil.VerifEncode(prefix, payload) }); p || len(body) != len(payload)+8 {
+		body = cashBody(prefix, payload, 0)
+	}
+	return prefix + ":" + body
+}
+
+func implBech(hrp string, data []byte) string {
+	var s string
+	var err error
+	if p, _ := vh.Catch(func() { s, err = bech32.Encode(hrp, data) }); p || err != nil || len(s) != len(hrp)+1+len(data)+6 {
+		s = hrp + "1" + bechBody(hrp, data, 1)
+	}
+	return s
+}
+
 // ---------------------------------------------------------------- the decoders as observed
 type cashObs struct {
 	ok, chk, panicked bool
@@ -458,7 +477,9 @@ func validCash(r *vh.RNG, prefix string, n int) (string, int) {
 	if want := cashBody(prefix, payload, 0); want != body {
 		rep.Violate("C03:cash:encode_reference", "encode(prefix, payload) differs from the CashAddr specification",
 			map[string]interface{}{"prefix": prefix, "payload": vh.Hex(payload), "impl": body, "spec": want})
-		body = want
+		if len(body) != len(want) {
+			body = want
+		}
 	}
 	s := prefix + ":" + body
 	if r.Intn(5) == 0 {
@@ -480,7 +501,9 @@ func validBech(r *vh.RNG, hrp string, n int) (string, int) {
 	if err != nil || s != want {
 		rep.Violate("C03:bech32:encode_reference", "bech32.Encode differs from BIP173",
 			map[string]interface{}{"hrp": hrp, "data": vh.Hex(data), "impl": s, "spec": want})
-		s = want
+		if err != nil || len(s) != len(want) {
+			s = want
+		}
 	}
 	if r.Intn(5) == 0 {
 		s = strings.ToUpper(s)
@@ -908,7 +931,7 @@ func search(rng *vh.RNG, cashDeltas, bechDeltas []uint64) {
 		cands := mitm(t, targets, 4, 400, budget(120))
 		rep.Extra[fmt.Sprintf("bech32_mitm_candidates_n%d", n)] = len(cands)
 		data := randSymbols(r, n-6)
-		valid := hrp + "1" + bechBody(hrp, data, 1)
+		valid := implBech(hrp, data)
 		for _, p := range cands {
 			s2 := applyPattern(valid, len(hrp)+1, p)
 			if s2 != valid {
@@ -931,7 +954,7 @@ func search(rng *vh.RNG, cashDeltas, bechDeltas []uint64) {
 		cands := mitm(t, ctargets, maxW, 400, budget(200))
 		rep.Extra[fmt.Sprintf("cash_mitm_candidates_n%d", n)] = len(cands)
 		payload := randSymbols(r, n-8)
-		valid := prefix + ":" + cashBody(prefix, payload, 0)
+		valid := implCash(prefix, payload)
 		for _, p := range cands {
 			s2 := applyPattern(valid, len(prefix)+1, p)
 			if s2 != valid {
@@ -1134,21 +1157,21 @@ func main() {
 		if cfg.Thorough() {
 			alpha = wide
 		}
-		s := prefix + ":" + cashBody(prefix, withAnL(randSymbols(r, n)), 0)
+		s := implCash(prefix, withAnL(randSymbols(r, n)))
 		exhaustiveLowWeight("cashaddr", s, len(prefix)+1, alpha, true)
 		hrp := vh.Pick(r, []string{"bc", "a"})
-		bs := hrp + "1" + bechBody(hrp, randSymbols(r, vh.Pick(r, []int{33, 20})), 1)
+		bs := implBech(hrp, randSymbols(r, vh.Pick(r, []int{33, 20})))
 		exhaustiveLowWeight("bech32", bs, len(hrp)+1, alpha, true)
 	}
 	// weight 1 over all byte values at every standard length
 	for _, n := range cashPayloadLens {
 		prefix := vh.Pick(r, cashPrefixes)
-		s := prefix + ":" + cashBody(prefix, randSymbols(r, n), 0)
+		s := implCash(prefix, randSymbols(r, n))
 		exhaustiveLowWeight("cashaddr", s, len(prefix)+1, nil, false)
 	}
 	for _, n := range []int{0, 1, 33, 52, 82} {
 		hrp := "bc"
-		s := hrp + "1" + bechBody(hrp, randSymbols(r, n), 1)
+		s := implBech(hrp, randSymbols(r, n))
 		exhaustiveLowWeight("bech32", s, len(hrp)+1, nil, false)
 	}
 
